@@ -258,8 +258,9 @@ def law_bounded(ctx):
     if rng.random() < 0.35:
         # neighbourhood of uniform cells (ratio 1): size = L/n * (1 + delta), |delta| = 1e-6 .. 1e-2
         size = L / n * (1 + rng.choice((-1, 1)) * 10 ** rng.uniform(-6, -2))
+    size = min(size, L * (1 - 1e-6))   # the property's domain: sizes up to the length
     E = 10 ** rng.uniform(-1.5, 1.5)
-    val = {"count": n, "c2c_expansion": c, "start_size": size, "end_size": size * rng.uniform(0.3, 3) if "start_size" in given else size,
+    val = {"count": n, "c2c_expansion": c, "start_size": size, "end_size": min(size * rng.uniform(0.3, 3), L * (1 - 1e-6)) if "start_size" in given else size,
            "total_expansion": E}
     kw = {k: val[k] for k in given}
     chop = Chop(**kw)
